@@ -1,4 +1,4 @@
-\* NEGATIVE configuration (expected to FAIL): a decoder that ignores the cancel while blocked wedges download
+\* NEGATIVE configuration (expected to FAIL): a fetcher that ignores the cancel (it runs on the caller's context) wedges download
 \* (B) deep pipeline: single-block batches (up to 4 batches + the final empty reply), rawBatches capacity 2, warmedUp
 \*     capacity 2: every fault at every position with the queues full behind it; download must return (BTerminates)
 SPECIFICATION SpecB
@@ -8,10 +8,10 @@ CONSTANTS
   MaxHB = 0
   MaxRB = 3
   MaxBatch = 1
-  RawCap = 2
+  RawCap = 1
   WarmCap = 1
   Slack = {0}
-  FetchListens = TRUE
-  DecListens = FALSE
+  FetchListens = FALSE
+  DecListens = TRUE
 PROPERTY BTerminates
 CHECK_DEADLOCK FALSE
